@@ -27,6 +27,7 @@ from __future__ import annotations
 import ast
 import itertools
 
+from ..astutil import first_stmt, last_stmt  # noqa: F401
 from ..astutil import (ancestors, call_name, calls_in, guards_of, kwarg, norm, single_def_value,
                        stmt_of, stores_to, walk_no_nested)
 from ..cfg import CFG
@@ -214,7 +215,7 @@ def legal_combinations(ctx, prog):
     init = dm.func('Dimensions.__init__')
     conds = []
     for n in walk_no_nested(init.node):
-        if isinstance(n, ast.If) and n.body and isinstance(n.body[0], ast.Raise):
+        if isinstance(n, ast.If) and isinstance(first_stmt(n.body), ast.Raise):
             conds.append(n.test)
     ctx.floor('C03-R3/constraints', len(conds), 2, 'Dimensions.__init__ constraints')
 
@@ -349,7 +350,7 @@ def rule_absent(ctx, m, arms):
     # writer: None handling
     none_if = [n for n in wr.node.body if isinstance(n, ast.If) and norm(n.test) in ('val is None', 'None is val')]
     okn = bool(none_if) and any(isinstance(s, ast.Return) for s in none_if[0].body) and \
-        any(isinstance(s, ast.If) and 'required' in norm(s.test) and isinstance(s.body[0], ast.Raise)
+        any(isinstance(s, ast.If) and 'required' in norm(s.test) and isinstance(first_stmt(s.body), ast.Raise)
             for s in none_if[0].body)
     ctx.ob('C03-R2', wr, 'unset value: refused if required, else nothing written', okn,
            '`if val is None: if field.required: raise; return`' if okn else
